@@ -5611,7 +5611,7 @@ sdef.is_pub = item->as.struct_def.is_pub;            /* Propagate public visibil
 
             /* Verify function has shadow test (skip for extern functions, main, and functions that use extern functions) */
             Function *func = env_get_function(env, item->as.function.name);
-            if (!env->suppress_shadow_warnings &&
+            if (func && !env->suppress_shadow_warnings &&
                 !func->is_extern && !func->shadow_test &&
                 strcmp(item->as.function.name, "main") != 0) {
                 /* Check if function body uses extern functions - if so, shadow test is optional */
@@ -6300,7 +6300,7 @@ sdef.is_pub = item->as.struct_def.is_pub;            /* Propagate public visibil
 
             /* Verify function has shadow test (skip for extern functions, main, and functions that use extern functions) */
             Function *func = env_get_function(env, item->as.function.name);
-            if (!env->suppress_shadow_warnings &&
+            if (func && !env->suppress_shadow_warnings &&
                 !func->is_extern && !func->shadow_test &&
                 strcmp(item->as.function.name, "main") != 0) {
                 /* Check if function body uses extern functions - if so, shadow test is optional */
